@@ -143,11 +143,16 @@ Proof. destruct o; simpl; auto. Qed.
 Lemma do_ret_ok s : state_ok s -> xres_ok (do_ret s).
 Proof. intros K. unfold do_ret. pose proof (unload_ok true s K). destruct (unload true s); simpl; auto. Qed.
 
-Lemma exec_op_ok cip op p s :
-  state_ok s -> param_ok p -> pusha_ok (mkEnv cip (prog_len s) (sc_sid (s_sc s))) op p ->
-  xres_ok (exec_op no_sys cip op p s).
+(* a SYSCALL / CALLT handler that keeps the limits (e.g. loaders that check the invocation stack size) *)
+Definition sys_lim_ok (sys : syshandler) : Prop := forall op p s s', state_ok s -> sys op p s = Some s' -> state_ok s'.
+Lemma no_sys_lim_ok : sys_lim_ok no_sys.
+Proof. intros op p s s' _ E. discriminate. Qed.
+
+Lemma exec_op_ok_sys sys cip op p s :
+  sys_lim_ok sys -> state_ok s -> param_ok p -> pusha_ok (mkEnv cip (prog_len s) (sc_sid (s_sc s))) op p ->
+  xres_ok (exec_op sys cip op p s).
 Proof.
-  intros K P PA.
+  intros SO K P PA.
   assert (DD : xres_ok (match exec_data (mkEnv cip (prog_len s) (sc_sid (s_sc s))) op p (view s) with
                | DOk d => XNext (unview s d) | DThrow e d => xopt (throw e (unview s d)) | DFault => XFault end)).
   { pose proof (exec_data_ok (mkEnv cip (prog_len s) (sc_sid (s_sc s))) op p (view s) (view_ok _ K) P PA) as R.
@@ -171,6 +176,7 @@ Proof.
   - (* CALLA *) destruct (pop (view s)) as [[[] d]|] eqn:E; try exact I.
     case_if; [|exact I]. apply xopt_ok. intros s' C. eapply call_ok; [|exact C].
     apply unview_ok; [assumption|]. eapply pop_ok; [|exact E]. apply view_ok; assumption.
+  - (* CALLT *) apply xopt_ok. intros s' E. eapply SO; eauto.
   - (* TRY *) destruct (try_params TRY p) as [cp fp].
     destruct (MaxTryNestingDepth <=? zlen (f_try (s_fr s))) eqn:C; [exact I|]. unfold xres_ok. peel.
     apply set_try_ok; [assumption|]. rewrite zlen_cons'. lia.
@@ -194,7 +200,12 @@ Proof.
       destruct (f_try (s_fr s)) as [|t ts]; [exact I|]. rewrite zlen_cons' in T.
       apply xopt_ok; intros s' J. eapply jump_ok'; [|exact J]. apply set_try_ok; [assumption|lia].
   - (* RET *) apply do_ret_ok; assumption.
+  - (* SYSCALL *) apply xopt_ok. intros s' E. eapply SO; eauto.
 Qed.
+Lemma exec_op_ok cip op p s :
+  state_ok s -> param_ok p -> pusha_ok (mkEnv cip (prog_len s) (sc_sid (s_sc s))) op p ->
+  xres_ok (exec_op no_sys cip op p s).
+Proof. apply exec_op_ok_sys. exact no_sys_lim_ok. Qed.
 
 Lemma set_gas_ip_ok s g n : state_ok s -> state_ok (set_ip (set_gas s g) n).
 Proof. intros ((L & A & T) & Sc & Fs & O & H & X & D). repeat split; try assumption; apply Sc. Qed.
@@ -206,6 +217,24 @@ Definition pusha_here (s : state) : Prop :=
   forall op p next, decode (sc_prog (s_sc s)) (f_ip (s_fr s)) = DecOk op p next ->
   pusha_ok (mkEnv (f_ip (s_fr s)) (prog_len s) (sc_sid (s_sc s))) op p.
 
+Theorem step_with_limits_gen sys s :
+  sys_lim_ok sys -> state_ok s -> pusha_here s ->
+  match step_with sys s with
+  | Running s' => within_limits s'
+  | Halted s' => within_limits s'
+  | Faulted _ => True
+  end.
+Proof.
+  intros SO K PH. unfold step_with.
+  assert (P : forall g r, xres_ok r ->
+              match post g r with Running s' => within_limits s' | Halted s' => within_limits s' | Faulted _ => True end).
+  { intros g r R. destruct r; simpl; try exact I; case_if; try exact I; split; try assumption; lia. }
+  destruct (decode (sc_prog (s_sc s)) (f_ip (s_fr s))) as [| |op p next] eqn:D; [|exact I|].
+  - apply P. apply do_ret_ok; assumption.
+  - case_if; [exact I|]. apply P. apply exec_op_ok_sys; [exact SO|apply set_gas_ip_ok; assumption| |].
+    + eapply decode_param_ok; eauto.
+    + exact (PH op p next D).
+Qed.
 Theorem step_limits_gen s :
   state_ok s -> pusha_here s ->
   match step s with
@@ -213,17 +242,7 @@ Theorem step_limits_gen s :
   | Halted s' => within_limits s'
   | Faulted _ => True
   end.
-Proof.
-  intros K PH. unfold step, step_with.
-  assert (P : forall g r, xres_ok r ->
-              match post g r with Running s' => within_limits s' | Halted s' => within_limits s' | Faulted _ => True end).
-  { intros g r R. destruct r; simpl; try exact I; case_if; try exact I; split; try assumption; lia. }
-  destruct (decode (sc_prog (s_sc s)) (f_ip (s_fr s))) as [| |op p next] eqn:D; [|exact I|].
-  - apply P. apply do_ret_ok; assumption.
-  - case_if; [exact I|]. apply P. apply exec_op_ok; [apply set_gas_ip_ok; assumption| |].
-    + eapply decode_param_ok; eauto.
-    + exact (PH op p next D).
-Qed.
+Proof. apply step_with_limits_gen. exact no_sys_lim_ok. Qed.
 
 Lemma init_state_ok prog sid base limit : state_ok (init_state prog sid base limit).
 Proof.
